@@ -391,7 +391,12 @@ func netC06(s *Sink, tier string) {
 					tcpIDs = []uint32{id}
 				}
 				farm.ResetLog()
+				farmListenPort = 60001
+				if bind.Port() != 0 && round%2 == 0 { // the event listener is configured on the same port number as the bind port
+					farmListenPort = bind.Port()
+				}
 				u := farmClientBind(farm, bind, T, udpIDs, tcpIDs)
+				farmListenPort = 60001
 				e, err := u.GetEvent(id, idx)
 				calls++
 				pn := []string{"broadcast", "udp", "tcp"}[path]
